@@ -141,7 +141,7 @@ type TreeGen struct {
 	OddEncap         bool // some nodes get an over-long (3-string) encapsulation pattern in front of a usable one: accepted and stored, never rendered - only for checks without a renderer model
 	UnmarshalFailers bool // a failing unmarshal closure on a random tenth of the NESTED nodes (stacks and Conditions)
 	NoOpConds        bool // one Condition in ten was assembled piecemeal without an operator (keyword and expression present)
-	DeepChains       bool // one tree in fifteen holds a chain of 9..14 single-member stacks (paths longer than any fixed small bound)
+	DeepChains       bool // one tree in fifteen holds a chain of 9..14 (a quarter of those: 31..130) single-member stacks (paths longer than any fixed small bound)
 	ZooLeaves        bool // one leaf in twelve is a value of an unusual Go type (genZooLeaf): only for checks that treat leaves as opaque
 	EqPolicies       bool // an accepting or rejecting equality closure on a random tenth of the nodes
 	WideRuns         bool // at most one node per tree additionally gets a run of 12..40 plain leaves (not counted against Budget)
@@ -203,6 +203,10 @@ func (g TreeGen) Draw(t *rapid.T) Node {
 	if g.DeepChains && rapid.IntRange(0, 14).Draw(t, "deepchain?") == 0 {
 		// leaf <- stack <- stack ... (depth 9..14), every second link through a Condition when those are allowed
 		depth := rapid.IntRange(9, 14).Draw(t, "chaindepth")
+		if rapid.IntRange(0, 3).Draw(t, "verydeep?") == 0 {
+			// around the powers of two at which a recursion guard or a fixed table would sit
+			depth = rapid.SampledFrom([]int{31, 32, 33, 34, 40, 63, 64, 65, 66, 100, 127, 128, 129, 130}).Draw(t, "verydeep")
+		}
 		cur := Node{T: "stack", Kind: "AND", Elems: []Node{LeafN(VS("bottom")), LeafN(VI(1))}}
 		for i := 0; i < depth; i++ {
 			link := cur
